@@ -822,6 +822,11 @@ func c04R6(c *Ctx) {
 	c.Rule(rule, "the signature test is computed every time over these bytes: keys.VerifySignature returns true only on a path where ed25519.Verify, applied to this call's key, data and signature, returned true (no remembered verdicts) (E1 decision table)")
 	fn := P.Func("keys", "VerifySignature")
 	if fn == nil || len(fn.Params) != 3 {
+		// no wrapper: the chain verifier applies ed25519.Verify itself (its arguments and verdict are judged by C04.R3)
+		if vp := P.Func("certs", "VerifyParent"); vp != nil && len(callSitesIn(vp, false, "crypto/ed25519.Verify")) > 0 {
+			c.OK(rule, "keys.VerifySignature#computed", "-", "no wrapper: VerifyParent calls ed25519.Verify directly (see C04.R3)")
+			return
+		}
 		c.Undecided(rule, "keys.VerifySignature", "function not found")
 		return
 	}
